@@ -67,6 +67,18 @@ CLAIMED = {
             "Lean 4 theorems (binAssign_var_correct, binAssign_fixed_correct via C20.getBinsize_truthful, assign_le_of_lex, sanitize_count_once, aggregated_eq_spec, sanitize_reflect_upper, sanitize_order_independent, sanitize_one_based, tabix_correct) + exhaustive single-record and seeded multiset correspondence through the API, the text loaders and the tabix loader",
             "Proof: for positions inside their chromosome the assigned bin is the bin containing the position (both paths) and lies on that chromosome; the aggregated output holds one unit per retained record at its pixel after orientation, total = number of retained records, independent of record order; one-based input is the zero-based input shifted by one; positions < 0 or > length are rejected. Full rejection at position == length is NOT proved: recorded finding D13 with a machine-checked witness, matched narrowly by Lean's atLength predicate and the variant oracle.",
             "Trusted: Lean kernel; model tied by correspondence; pandas Categorical/searchsorted and pysam fetch are primitives; HDF5Aggregator/PairixAggregator not modelled."),
+    "C08": ("DESIGN.md §5 C08",
+            "Lean 4 theorems (coarsenBins_spec, cmap_monotone, rebin_correct via C20.getBinsize_truthful, prune_contract, no_group_split, coarsen_eq_spec for ANY contract-satisfying spans, coarsen_total, coarsen_compose, coarsen_merge_commute, coarsen_map_independent) + exhaustive (k, chunksize) differential correspondence with coarsen_cooler",
+            "Proof: every new bin is the union of k consecutive old bins of one chromosome (last group shorter), re-binning through the new table equals the block map on fixed and variable tables, span boundaries never split a coarse row, and for any valid spans and any order-preserving map the stream concatenates to groupSum of the relabelled pixels; totals preserved; coarsening composes and commutes with merging. Real coarsen_cooler is run for k=2..n+1 and every chunk size 1..nnz+1 on small coolers, chains and merge/coarsen interleavings.",
+            "Trusted: Lean kernel; model tied by correspondence; real process pools observed for <=4 workers; pandas groupby primitives; non-sum aggregations by correspondence."),
+    "C09": ("DESIGN.md §5 C09",
+            "Lean 4 theorems (multseq_sorted_once, multseq_sound, multseq_refuses_iff(_bases), chain_to_base, zoom_level_eq_direct for ANY valid multiplier sequence via C08.coarsen_compose, zoom_layout, expandSpec_*) + differential correspondence with zoomify_cooler over target sets, one to three bases and CLI spellings",
+            "Proof: the multiplier sequence is the strictly sorted union, is refused exactly when some requested resolution is not a multiple of any base, every predecessor chain ends at a base with the product of multipliers r/base, hence every derived level equals direct coarsening of a base by r/base whatever chain was used; bases are copies; the listing is exactly /resolutions/<r>. Real zoomify output is compared level by level (base levels byte-for-byte with their sources).",
+            "Trusted: Lean kernel; model tied by correspondence; is_multires_file by correspondence only; resolutions positive integers."),
+    "C16": ("DESIGN.md §5 C16",
+            "Lean 4 theorems (columns_any_layout, dump_eq_query, dump_option_effect (one theorem per option), load_dump_coo, load_dump_bg2, pairs_layout_independent, parseFieldParam_spec) + CLI differential correspondence over all 128 dump option combinations, dump->load round trips and all column layouts",
+            "Proof: for every injective layout the parsed field f is the line's column col f (formal content of fix D12); dump rows are the annotator mapped over the library query (C03 engines, C12 balanced cell); each dump option has its documented effect and no other; loading dumped COO/BG2 records in any order and chunking reproduces the stored table. Partial: cloadPairs = pairsSpec for any chunking is proved per chunk (counts per key and total), the cross-chunk statement is kept as an unproved Statement and asserted L1 = L0 at run time.",
+            "Trusted: Lean kernel; model tied by correspondence; character-level CSV parsing/formatting and float formatting are pandas primitives."),
 }
 
 NOT_YET = {}
